@@ -70,6 +70,9 @@ type Backend struct {
 	Gate func(step string)
 	// Delay: Mail and Rcpt take that long (time.Sleep: the virtual clock inside a bubble) - a slow backend
 	Delay time.Duration
+	// SlowAbort: a delivery whose reader failed (connection lost, RSET, STARTTLS ...) takes that long to clean up
+	// before Data returns (time.Sleep: the virtual clock inside a bubble).
+	SlowAbort time.Duration
 	// LogoutErr is returned by Logout.
 	LogoutErr error
 	// ByContent: the message itself says what to do with it (first line
@@ -371,6 +374,9 @@ func (s *sess) consume(kind string, r io.Reader, status smtp.StatusCollector) (e
 		}
 	}
 	b.afterEOF(s, r, rerr)
+	if rerr != nil && rerr != io.EOF && b.SlowAbort > 0 {
+		time.Sleep(b.SlowAbort)
+	}
 	b.mu.Lock()
 	e.Body = body
 	switch {
@@ -418,6 +424,9 @@ func (s *sess) byContent(e *Event, r io.Reader, idx int) error {
 		}
 	}
 	b.afterEOF(s, r, rerr)
+	if rerr != nil && rerr != io.EOF && b.SlowAbort > 0 {
+		time.Sleep(b.SlowAbort)
+	}
 	b.mu.Lock()
 	e.Body = body
 	switch {
